@@ -264,11 +264,13 @@ The range is closed at both ends (the search stage matches `start ≤ ts ≤ end
 /-- the grid cell `[b, b + span)` that contains `ts` (for `start ≤ ts`, `0 < span`) -/
 def bucketOf (start span ts : Nat) : Nat := start + (ts - start) / span * span
 
-/-- closed range: the end point of the range, when it would open a cell of its own (it lies ON the grid), belongs to the
-last cell `[end − span, end]`; everywhere else the grid cell.  (The other reading — the end point opens the cell
-`[end, end + span)` — is `bucketOf` itself; the differential accepts both, see Oracle/E2E.lean.) -/
+/-- closed range: a timestamp exactly ON the end bound of the range belongs to the LAST cell of the grid, the one that holds
+`end − 1` (timestamps are whole milliseconds).  When the end bound lies on the grid that is `[end − span, end]` — the end
+point does not open a cell of its own; otherwise it is the grid cell that contains the end bound anyway.  (The other
+reading of an end bound on the grid — it opens the cell `[end, end + span)` — is `bucketOf` itself; the differential accepts
+both, see Oracle/E2E.lean.) -/
 def tcBucket (start end_ span ts : Nat) : Nat :=
-  if ts == end_ && start < end_ && (end_ - start) % span == 0 then end_ - span else bucketOf start span ts
+  if ts == end_ && start < end_ then bucketOf start span (end_ - 1) else bucketOf start span ts
 
 /-- cells of a timechart: (cell start, series) ↦ the matched events counted there.  Series: `some key` = the key text of
 the by-field's value (`some ""` when there is no by-field), `none` = the NULL series of the events lacking the by-field. -/
